@@ -61,6 +61,18 @@ def ocase_coq(h, w, o, rm, order, odd, out, recon, distr, d, history=()):
                d.row, d.col, d.rmax, d.Qheight, d.Qwidth, vlib.img_q(distr.cos().tolist()), vlib.img_q(recon.tolist())))
 
 
+def matched_frames(rng, R):
+    """Frames with height 2R+1, HOR = R (so that rmax='MIN' is R) and the origin row
+    off the middle: 'same', 'full' and 'full-unique' then ask for image bases of equal
+    size about different rows.  One square, one not."""
+    h = 2 * R + 1
+    rows = [r for r in range(h) if r != R]
+    k = int(rng.integers(0, R))
+    return [(h, 2 * R + 1, (rows[rng.integers(len(rows))], R)),
+            (h, R + 1 + k, (rows[rng.integers(len(rows))], R)) if rng.random() < 0.5
+            else (h, R + 1 + k, (rows[rng.integers(len(rows))], k))]
+
+
 def correspondence(ctx, rng, hits):
     combos = []
     if ctx.quick:
@@ -69,7 +81,7 @@ def correspondence(ctx, rng, hits):
             o = ((int(rng.integers(-h, h)), int(rng.integers(-w, w))) if rng.random() < 0.7
                  else L.ORIGIN_STRINGS[rng.integers(len(L.ORIGIN_STRINGS))])
             rm = L.RMAX_KW[rng.integers(9)] if rng.random() < 0.6 else int(rng.integers(1, 9))
-            combos.append((h, w, o, rm, int(rng.integers(0, 5)), bool(rng.integers(2)), OUTS[rng.integers(5)]))
+            combos.append((h, w, o, rm, int(rng.integers(0, 5)), bool(rng.integers(2)), OUTS[rng.integers(5)], None))
     else:
         for h in range(3, 8):
             for w in range(3, 8):
@@ -78,19 +90,34 @@ def correspondence(ctx, rng, hits):
                         for out in OUTS:
                             rm = L.RMAX_KW[rng.integers(9)] if rng.random() < 0.6 else int(rng.integers(1, 9))
                             combos.append((h, w, (r - h if rng.random() < 0.3 else r, c), rm,
-                                           int(rng.integers(0, 5)), bool(rng.integers(2)), out))
+                                           int(rng.integers(0, 5)), bool(rng.integers(2)), out, None))
         for s in L.ORIGIN_STRINGS:
             for out in OUTS:
                 h, w = [int(v) for v in rng.integers(3, 9, 2)]
-                combos.append((h, w, s, L.RMAX_KW[rng.integers(9)], int(rng.integers(0, 5)), bool(rng.integers(2)), out))
+                combos.append((h, w, s, L.RMAX_KW[rng.integers(9)], int(rng.integers(0, 5)), bool(rng.integers(2)), out, None))
+    # every ordered pair of out values, odd on/off, on frames where several out values request an
+    # image basis of the same size but about different origin rows (height = 2 rmax + 1, HOR = rmax,
+    # origin row != rmax), square and not
+    for (h, w, o) in matched_frames(rng, 3 if ctx.quick else 4):
+        for odd in (False, True):
+            for out1 in OUTS:
+                for out2 in OUTS:
+                    combos.append((h, w, o, 'MIN', 2 if rng.random() < 0.5 else 1 + int(odd), odd, out2, [out1]))
     cases, meta, dist = [], [], {}
-    for (h, w, o, rm, order, odd, out) in combos:
+    for (h, w, o, rm, order, odd, out, forced) in combos:
         IM = rng.integers(-9, 10, (h, w)).astype(float)
         history = 'fresh'
         hist_outs = []
         try:
             k = rng.random()
-            if k < 0.35:
+            if forced is not None:
+                history = 'out-pair-on-matched-frame'
+                hist_outs = list(forced)
+                rb().cache_cleanup()
+                for ho in hist_outs:
+                    call(IM, fresh=False, origin=o, rmax=rm, order=order, odd=odd, out=ho)
+                recon, distr = call(IM, fresh=False, origin=o, rmax=rm, order=order, odd=odd, out=out)
+            elif k < 0.35:
                 # earlier calls with the same image and parameters but other out values, no clean-up
                 history = 'after-same-parameters-other-out'
                 hist_outs = [OUTS[rng.integers(5)] for _ in range(int(rng.integers(1, 4)))]
@@ -199,7 +226,7 @@ for k in p.get('history', []):
     run(k, False)
 rec, dist = run(p['call'], not p.get('history'))
 ok = True; msg = ''
-if 'expected_image' in p:
+if p.get('expected_image') is not None:
     E = arr(p['expected_image'])
     if rec is None or rec.shape != E.shape:
         ok = False; msg = 'shape %%r, expected %%r' %% (None if rec is None else rec.shape, E.shape)
@@ -366,6 +393,49 @@ def search(ctx, rng, budget, stats):
                          call=kdict(IM, o, rm, order, odd, out, W, direction, reg), expected_image=recon.tolist(),
                          expected_cos=cn.tolist(), tol=float(tol)),
                     dict(first_out=out0, second_out=out, shape=[h, w], origin=repr(o), rmax=rm))
+    # 7. every ordered pair of out values (incl. None) x odd on/off on matched frames: the second
+    #    result must equal the fresh-cache result and the synthesis of its distributions
+    for (h, w, o) in matched_frames(rng, int(rng.integers(3, 11))) + matched_frames(rng, 20):
+        row, col = o
+        IM = rng.normal(size=(h, w)) + 2
+        for odd in (False, True):
+            order = 1 + int(odd) if rng.random() < 0.5 else 2
+            orders, odd_r = L.orders_of(order, odd)
+            direction = 'inverse' if rng.random() < 0.5 else 'forward'
+            kw = dict(origin=o, rmax='MIN', order=order, odd=odd, direction=direction)
+            fresh = {}
+            for out2 in OUTS:
+                fresh[out2] = call(IM, out=out2, **kw)
+            R = rb()._dst.rmax
+            for out1 in [None] + OUTS:
+                for out2 in [None] + OUTS:
+                    rb().cache_cleanup()
+                    call(IM, fresh=False, out=out1, **kw)
+                    rec2, distr2 = call(IM, fresh=False, out=out2, **kw)
+                    n_eval += 1
+                    distinct.add(('pair', out1, out2, odd_r))
+                    if out2 is None:
+                        ok = rec2 is None
+                        E = None
+                    else:
+                        recF, distrF = fresh[out2]
+                        cn = distr2.cos()
+                        tol = 1e-9 * (1 + np.abs(cn).max() * len(orders))
+                        shp, org = out_geometry((h, w), row, col, R, odd_r, out2)
+                        E = synthesis(shp, org, cn, orders, R)
+                        ok = (rec2.shape == recF.shape == shp and np.allclose(rec2, recF, rtol=0, atol=tol, equal_nan=True)
+                              and np.allclose(rec2, E, rtol=0, atol=tol, equal_nan=True)
+                              and np.allclose(cn, distrF.cos(), rtol=0, atol=tol, equal_nan=True))
+                    if not ok:
+                        add('history', 'C16:history:out-pair:%s->%s:odd=%s' % (out1, out2, odd_r),
+                            'frame %dx%d, origin %r, rmax MIN (= %d), order %d, odd %s: after out=%r the call with out=%r does not '
+                            'return the fresh-cache image / the synthesis of its distributions'
+                            % (h, w, o, R, order, odd, out1, out2),
+                            dict(clause='result independent of earlier calls',
+                                 history=[kdict(IM, o, 'MIN', order, odd, out1, None, direction, None)],
+                                 call=kdict(IM, o, 'MIN', order, odd, out2, None, direction, None),
+                                 expected_image=None if E is None else E.tolist(), tol=float(tol) if E is not None else 0.0),
+                            dict(first_out=out1, second_out=out2, shape=[h, w], origin=list(o), odd=odd_r))
     return hits, n_eval, len(distinct), samples
 
 
